@@ -104,6 +104,29 @@ def step (line : String) : String :=
     match parseCols cols with
     | some cols => classifyPrefixes cols (parseDecomp tab) (unhex file)
     | none => "bad-op"
+  | ["specwrite", cols, codecs, flags, seed, mu, rgs] =>
+    -- file written by the independent writer; compressed pages by the Lean snappy encoder (random
+    -- literal/copy segmentation) and a gzip container with stored blocks. Output: file and the
+    -- decompression graph `compressed=raw` for the model reader
+    match parseCols cols with
+    | none => "bad-op"
+    | some cols =>
+      match parseSWCfg cols codecs flags, seed.toNat?, parseMutation mu, parseRowGroups cols rgs with
+      | some cfg, some seed, some mu, some rgs =>
+        let ccs := lcgChoices (seed + 7919) 4000
+        let compress : Nat → Bytes → Bytes := fun c b => if c = 1 then snappyEncode ccs b else if c = 2 then gzipStored ccs b else b
+        let (file, lg) := specWriteLog cfg compress mu (lcgChoices seed 6000) rgs
+        let tab := (lg.filter (·.1 ≠ 0)).map fun (c, raw) => toHex (compress c raw) ++ "=" ++ toHex raw
+        toHex file ++ " " ++ (if tab.isEmpty then "-" else ",".intercalate tab.eraseDups)
+      | _, _, _, _ => "bad-op"
+  | ["snappy-enc", seed, raw] =>
+    match seed.toNat? with
+    | some seed => toHex (snappyEncode (lcgChoices seed 4000) (unhex raw))
+    | none => "bad-op"
+  | ["snappy-dec", bs] =>
+    match snappyDecode (unhex bs) with
+    | some out => "ok " ++ toHex out
+    | none => "err"
   | ["pack", w, g] =>
     match w.toNat? with
     | some w => toHex (pack w (unhex g))
